@@ -107,6 +107,24 @@ def crosscheck_function(world, contract, per_path=2, seed=0, max_paths=60):
         for ob in pr.obligations:
             terms.append(ob.formula)
         cuts = to_int_args(terms)
+        # symbols that occur in the quantified axioms of this path (class invariants such as "binary mask",
+        # "increasing grid") must keep the values the model gives them: only free data is diversified
+        protected = set()
+        if pr.obligations:
+            have = set(p_.get_id() for p_ in pr.pc)
+            stack = [a for a in pr.obligations[0].pc if a.get_id() not in have]
+            seen = set()
+            while stack:
+                e = stack.pop()
+                if e.get_id() in seen:
+                    continue
+                seen.add(e.get_id())
+                if z3.is_quantifier(e):
+                    stack.append(e.body())
+                elif z3.is_app(e):
+                    if e.decl().kind() == z3.Z3_OP_UNINTERPRETED:
+                        protected.add(e.decl().name())
+                    stack.extend(e.children())
         for m in sample_models(pc, per_path, seed, away=cuts):
             if near_boundary(m, cuts):
                 # an input on a floor/round discontinuity: float and real arithmetic may differ there
@@ -115,11 +133,11 @@ def crosscheck_function(world, contract, per_path=2, seed=0, max_paths=60):
                 stats['float_boundary'] = stats.get('float_boundary', 0) + 1
                 continue
             import random
-            replay.DIVERSIFY, replay._DIVERSE = random.Random(seed * 7919 + stats['samples']), {}
+            replay.DIVERSIFY, replay._DIVERSE, replay.PROTECTED = random.Random(seed * 7919 + stats['samples']), {}, protected
             try:
                 r = replay.replay_with_model(world, contract, pr.replay_state, pr.pc, m)
             finally:
-                replay.DIVERSIFY, replay._DIVERSE = None, {}
+                replay.DIVERSIFY, replay._DIVERSE, replay.PROTECTED = None, {}, set()
             stats['samples'] += 1
             if r.get('status') == 'not-confirmed':
                 stats['agree'] += 1
